@@ -172,3 +172,37 @@ func c10IRIsOK(ts []rdf.Triple) bool {
 	}
 	return true
 }
+
+// c10-seeds: the JSON-LD documents of the W3C expand / toRdf suites shipped in the repository, read by the decoder and,
+// where the document stays inside the part of JSON-LD the Coq model covers (the model answers !skip elsewhere), by the
+// model; documents written by other people than the harness writer.
+func init() { families["c10-seeds"] = c10Seeds }
+
+func c10Seeds(r *hx.Rand, n int, out *hx.Out, _ []string) {
+	var files []seedFile
+	for _, s := range seeds("jsonld") {
+		if strings.HasSuffix(s.path, "-in.jsonld") {
+			files = append(files, s)
+		}
+	}
+	for c := 0; c < n && c < len(files); c++ {
+		s := files[c]
+		base := "http://w3c.example/tests/" + s.path[strings.LastIndexByte(s.path, '/')+1:]
+		tree, err := parseJSONTree(s.data)
+		if err != nil {
+			continue
+		}
+		var tk strings.Builder
+		if !tree.tokens(&tk) {
+			continue
+		}
+		res := zooRun("jsonld", s.data, zooOpts{base: base})
+		if res.verdict != "ok" {
+			// an error test, or a document which needs options the manifest gives: nothing to compare
+			out.Emit(hx.Case{Kind: "K/C10/seeds-skip", Impl: res.verdict, Class: "decoder does not accept (error test or options needed)", Desc: s.path})
+			continue
+		}
+		out.Emit(hx.Case{Kind: "K/C10/seeds/iso", Line: "jsonldq\t" + hx.X(base) + "\t" + strings.TrimSuffix(tk.String(), ","), Impl: c10ImplString(res), Class: "W3C suite document", NonTri: len(res.quads) >= 2, Spec: true,
+			Desc: fmt.Sprintf("base=%q file=%s document: %s", base, s.path, string(s.data))})
+	}
+}
